@@ -154,7 +154,7 @@ def format_outcome(
             out_len = len(out)
 
         if len(out) < out_len:
-            out += [False] * (out_len - len(out))
+            out = out + [False] * (out_len - len(out))
 
         return out
     raise Exception(f"Invalid format: {out}")
